@@ -7,6 +7,7 @@ import (
 	"os"
 	"runtime"
 	"sort"
+	"strings"
 	"time"
 )
 
@@ -17,6 +18,7 @@ type Case struct {
 	NT      bool   // non-trivial by the property's rule
 	Class   string // bucket for the input distribution
 	Note    string // human-readable form for samples / replays
+	NoModel bool   // the model cannot answer this request yet: only the oracle looks at it
 }
 
 // Viol is a concrete failing input found by an oracle.
@@ -156,6 +158,11 @@ func corrMain(args []string) {
 			c := &g.Cases[i]
 			rep.Evaluations++
 			rep.Distribution[c.Class]++
+			outcome := impl[i]
+			if k := strings.IndexByte(outcome, ' '); k >= 0 {
+				outcome = outcome[:k]
+			}
+			rep.Distribution["outcome:"+outcome]++
 			if c.NT && !seen[c.Req] {
 				seen[c.Req] = true
 				rep.DistinctNT++
@@ -186,7 +193,9 @@ func corrMain(args []string) {
 				rep.Violations = append(rep.Violations, *v)
 			}
 			// (2) the tie: model and implementation must agree
-			if impl[i] != model[i] {
+			if c.NoModel {
+				// oracle-only case
+			} else if impl[i] != model[i] {
 				rep.Diffs = append(rep.Diffs, Diff{Req: c.Req, Note: note, Impl: impl[i], Model: model[i]})
 			} else {
 				rep.Validated++
